@@ -206,6 +206,10 @@ def expand_grammar(g):
             new_classes.append(('class', cname, None, done))
             return ('ref', cname)
         body = r[3]
+        # hygiene: a global (rule) name used by the body must not be captured by a call-site local
+        body_names = {x[1] for x in peg.walk(body) if x[0] in ('ref', 'call')} - set(r[2]) - let_names(body)
+        if body_names & set(L):
+            return n
         mapping = {p: fresh('p') for p, _ in pairs}
         for x in let_names(body):
             mapping[x] = fresh('v')
